@@ -432,13 +432,14 @@ def body_end_start_total : List Stmt :=
    .validate "_validate_total_expansion" ["total_expansion"],
    .ret (.mul (.var "start_size") (.var "total_expansion"))]
 
-/-- `get_start_size__count__c2c_expansion` -/
+/-- `get_start_size__count__c2c_expansion` (a closed-form relation: the operands of `+` / `*` are in the canonical token
+    order of the translator, here `(1 - c) * length` for the source's `length * (1 - c)`) -/
 def body_start_count_c2c : List Stmt :=
   [.validate "_validate_length" ["length"],
    .validate "_validate_count" ["count", ">=1"],
    .validate "_validate_c2c_expansion" ["c2c_expansion"],
    .retIf (.cmp .gt (.abs (.sub (.var "c2c_expansion") (.lit 1))) (.tol))
-      (.div (.mul (.var "length") (.sub (.lit 1) (.var "c2c_expansion"))) (.sub (.lit 1) (.pow (.var "c2c_expansion") (.var "count")))),
+      (.div (.mul (.sub (.lit 1) (.var "c2c_expansion")) (.var "length")) (.sub (.lit 1) (.pow (.var "c2c_expansion") (.var "count")))),
    .ret (.div (.var "length") (.var "count"))]
 
 /-- `get_start_size__end_size__total_expansion` -/
